@@ -113,7 +113,17 @@ func (c *c21gen) primary(depth int) *c21Expr {
 	if c.wild {
 		switch y := c.rng.Intn(100); {
 		case y < 14:
-			// a reference to this or an earlier nonterminal: recursion (the cycle rule of nontermPhrase)
+			// a reference to this or an earlier nonterminal: recursion (the cycle rule of nontermPhrase); plain
+			// nonterminals are preferred, their references are not cut by an arrow (mutual recursion)
+			var plain []int
+			for j := 0; j <= c.nt; j++ {
+				if c.g.nts[j].kind == 0 {
+					plain = append(plain, j)
+				}
+			}
+			if len(plain) > 0 && c.rng.Intn(3) != 0 {
+				return &c21Expr{kind: ekNt, nt: plain[c.rng.Intn(len(plain))]}
+			}
 			return &c21Expr{kind: ekNt, nt: c.rng.Intn(c.nt + 1)}
 		case y < 18:
 			return &c21Expr{kind: ekRaw, raw: []string{"{ act() }", ".mark", "set(ta | tb)"}[c.rng.Intn(3)]}
